@@ -29,6 +29,10 @@ pub struct CbConfig {
     pub permitted: usize,
     /// wait_duration_in_open = wait_ms + 0.5 ms
     pub wait_ms: u64,
+    /// "never auto-recover" settings instead of wait_ms: 1 Duration::MAX, 2 from_secs(u64::MAX),
+    /// 3 a hundred years (0 = use wait_ms)
+    #[serde(default)]
+    pub wait_huge: u8,
     /// slow-call detection: (threshold_ms (+0.5 ms), rate in tenths)
     pub slow: Option<(u64, u8)>,
     /// slow-call rate threshold configured although detection is off (must have no effect)
@@ -85,7 +89,7 @@ pub fn config_strategy() -> BoxedStrategy<CbConfig> {
         prop_oneof![Just(20u64), 20u64..=200],
         prop_oneof![1 => Just(None), 1 => (5u64..=40, 0u8..=10).prop_map(Some)],
         any::<bool>(),
-        prop_oneof![2 => Just(None), 1 => (0u8..=10).prop_map(Some)],
+        (prop_oneof![2 => Just(None), 1 => (0u8..=10).prop_map(Some)], prop_oneof![12 => Just(0u8), 1 => 1u8..=3]),
     )
         .prop_map(
             |(
@@ -98,7 +102,7 @@ pub fn config_strategy() -> BoxedStrategy<CbConfig> {
                 wait_ms,
                 slow,
                 custom_classifier,
-                idle_slow_rate10,
+                (idle_slow_rate10, wait_huge),
             )| {
                 CbConfig {
                     time_based,
@@ -111,6 +115,7 @@ pub fn config_strategy() -> BoxedStrategy<CbConfig> {
                     slow,
                     custom_classifier,
                     idle_slow_rate10: if slow.is_some() { None } else { idle_slow_rate10 },
+                    wait_huge,
                 }
             },
         )
@@ -202,7 +207,7 @@ impl ModelCfg {
             thr20: c.thr20 as u64,
             min: c.min.unwrap_or(c.size),
             permitted: c.permitted,
-            wait2: 2 * c.wait_ms + 1,
+            wait2: if c.wait_huge > 0 { u64::MAX } else { 2 * c.wait_ms + 1 },
             slow2: c.slow.map(|(ms, r)| (2 * ms + 1, r as u64)),
         }
     }
@@ -371,6 +376,15 @@ pub fn run_case(case: &CbCase) -> Verdict {
     }
 }
 
+pub fn wait_duration(c: &CbConfig) -> Duration {
+    match c.wait_huge {
+        0 => Duration::from_millis(c.wait_ms) + Duration::from_micros(500),
+        1 => Duration::MAX,
+        2 => Duration::from_secs(u64::MAX),
+        _ => Duration::from_secs(100 * 365 * 86_400),
+    }
+}
+
 pub fn builder(
     c: &CbConfig,
 ) -> tower_resilience_circuitbreaker::CircuitBreakerConfigBuilder {
@@ -379,7 +393,7 @@ pub fn builder(
         .failure_rate_threshold(c.thr20 as f64 / 20.0)
         .sliding_window_size(c.size)
         .permitted_calls_in_half_open(c.permitted)
-        .wait_duration_in_open(Duration::from_millis(c.wait_ms) + half)
+        .wait_duration_in_open(wait_duration(c))
         .name("vcheck");
     if c.time_based {
         b = b
